@@ -202,9 +202,12 @@ def auto_kind(doc: str, f: dict, o: dict) -> str:
 
 # ---- geometry and rendering -------------------------------------------------------------------------
 GEO = {
-    "python": {"filler": 5, "hdr": {"func": 1, "class": 1, "if": 1, "try": 1, "with": 1, "for": 1, "while": 1}},
-    "typescript": {"filler": 5, "hdr": {"func": 1, "class": 2, "if": 1, "try": 1, "with": 1, "for": 1, "while": 1}},
-    "rust": {"filler": 5, "hdr": {"func": 1, "class": 1, "if": 1, "try": 1, "with": 1, "for": 1, "while": 1}},
+    "python": {"filler": 5, "hdr": {"func": 1, "class": 1, "if": 1, "try": 1, "with": 1, "for": 1, "while": 1,
+                                    "else": 3, "except": 3, "finally": 3, "case": 2}},
+    "typescript": {"filler": 5, "hdr": {"func": 1, "class": 2, "if": 1, "try": 1, "with": 1, "for": 1, "while": 1,
+                                        "else": 2, "except": 3, "finally": 3, "case": 2}},
+    "rust": {"filler": 5, "hdr": {"func": 1, "class": 1, "if": 1, "try": 1, "with": 1, "for": 1, "while": 1,
+                                  "else": 2, "except": 1, "finally": 1, "case": 2}},
 }
 IND = {"python": "    ", "typescript": "  ", "rust": "    "}
 
@@ -223,6 +226,25 @@ def filler(lang: str, n: int) -> list[str]:
 def frame(lang: str, kind: str, n: int, depth: int) -> tuple[list[str], list[str], int]:
     """(header lines, closing lines, indentation levels added) for one frame at nesting depth `depth`."""
     p = IND[lang] * depth
+    i1 = IND[lang]
+    if kind in ("else", "except", "finally", "case"):
+        if lang == "python":
+            heads = {"else": [f"if wrap_flag{n}:", i1 + "pass", "else:"],
+                     "except": ["try:", i1 + f"wrap_probe{n}()", f"except WrapError{n}:"],
+                     "finally": ["try:", i1 + f"wrap_probe{n}()", "finally:"],
+                     "case": [f"match wrap_subject{n}:", i1 + "case _:"]}[kind]
+            return [p + h for h in heads], [], 2 if kind == "case" else 1
+        if lang == "typescript":
+            heads = {"else": [f"if (wrapFlag{n}) {{", "} else {"],
+                     "except": ["try {", i1 + f"wrapProbe{n}();", f"}} catch (wrapErr{n}) {{"],
+                     "finally": ["try {", i1 + f"wrapProbe{n}();", "} finally {"],
+                     "case": [f"switch (wrapSubject{n}) {{", i1 + "default: {"]}[kind]
+            close = [p + i1 + "}", p + "}"] if kind == "case" else [p + "}"]
+            return [p + h for h in heads], close, 2 if kind == "case" else 1
+        heads = {"else": [f"if wrap_flag{n} {{", "} else {"], "except": ["{"], "finally": ["{"],
+                 "case": [f"match wrap_subject{n} {{", i1 + "_ => {"]}[kind]
+        close = [p + i1 + "}", p + "}"] if kind == "case" else [p + "}"]
+        return [p + h for h in heads], close, 2 if kind == "case" else 1
     if lang == "python":
         head = {"func": f"def wrap_f{n}(wrap_arg{n}):", "class": f"class WrapC{n}:", "if": f"if wrap_flag{n}:",
                 "try": "try:", "with": f"with wrap_ctx{n}() as wrap_h{n}:", "for": f"for wrap_i{n} in wrap_items{n}:",
